@@ -1,4 +1,5 @@
 import Witverif.Proofs.CFree
+import Witverif.Abi.Names
 import Witverif.Proofs.CImportGlue
 import Witverif.Props.C03
 /-!
@@ -9,9 +10,9 @@ Objects:
   generated `<type>_free` helper performs on a value in linear memory (the `dtor_funcs` registry is
   complete in every pass since the repair; `CProfile.cFreesLate` describes the pre-repair registry
   and only serves to name a regression);
-* `CProfileSpec.ownedBuffers` — specification: the buffers a value owns;
-* `CProfile.cDtorExportName` — the export name `type_resource` gives a destructor;
-  `CProfileSpec.dtorExportName` — the name the component model binds (`Resolve::wasm_export_name`);
+* `reachBlocks` (Abi/Validate.lean, shared with C03/C06) — specification: the blocks a value references;
+* `CProfile.cDtorExportName` — the destructor's export name: the format string extracted from
+  `type_resource` by tools/gen_cdtor.py; spec: `Names.Spec.dtor` (C13, `Resolve::wasm_export_name`);
 * the post-return and import glue are the shared generator's (`Gen.postReturn`, `Gen.call`) — C03/C02.
 
 Tie: `./check C11` — native run with an allocation ledger; the byte sizes freed by the generated
@@ -24,13 +25,25 @@ open Witverif.Abi Witverif.Abi.CProfile Witverif.Abi.CProfileSpec
 
 /-! ## generated free helpers -/
 
-/-- **`define_dtor` as written frees exactly a value's owned memory.**  For every type, every memory
-and address (hence every value), both pointer widths: the `free` calls of the generated helper are —
-as a multiset, each buffer once — the non-empty string/list/map buffers reachable in the value.
-(Order differs: the helper frees a list's elements before its buffer.) -/
-theorem c_free_helpers_exact (p : Nat) (m : Spec.Mem) (t : Ty) (a : Nat) :
-    (cFrees p m t a).Perm (ownedBuffers p m t a) :=
-  cFrees_perm p m t a
+/-- **`define_dtor` as written frees exactly the non-empty blocks of the value.**  The specification
+side is the independent `reachBlocks` of Abi/Validate.lean (the blocks `(addr, size, align)` a stored
+value references, shared with C03/C06) — a different traversal: it lists a buffer before its
+elements, all map keys before all map values, tests option discriminants for `== 1`, and reports
+byte sizes.  For both pointer widths, every C-supported type whose list elements / map entries have
+non-zero size, every memory, address and value `v` that `Spec.load` reads there: the addresses the
+generated helper passes to `free` are — as a multiset, each once — the addresses of the reachable
+blocks of non-zero size. -/
+theorem c_free_helpers_exact (p : Nat) (m : Spec.Mem) (t : Ty) (a : Nat) (v : Val)
+    (hs : cSupported t = true) (hp : elemsPos p t = true) (hv : Spec.load p m t a = some v) :
+    ((cFrees p m t a).map (·.1)).Perm (((reachBlocks false p m t a).filter nz).map (·.1)) :=
+  cFrees_reach p m t a hs hp (load_optTagsOk p m t a v hv)
+
+/-- The same under the weaker hypothesis actually used: every reachable `option` discriminant is 0 or 1
+(the helper tests `is_some` for non-zero, the spec for `== 1`). -/
+theorem c_free_helpers_exact_of_tags (p : Nat) (m : Spec.Mem) (t : Ty) (a : Nat)
+    (hs : cSupported t = true) (hp : elemsPos p t = true) (ho : optTagsOk p m t a = true) :
+    ((cFrees p m t a).map (·.1)).Perm (((reachBlocks false p m t a).filter nz).map (·.1)) :=
+  cFrees_reach p m t a hs hp ho
 
 /-- The helpers never touch handles: an `own`, `borrow`, `future` or `stream` is not dropped by
 `*_free` (dropping stays with the user, as crates/c/README.md documents). -/
@@ -39,47 +52,64 @@ theorem c_free_helpers_ignore_handles (p : Nat) (m : Spec.Mem) (a : Nat) :
     (∀ x, cFrees p m (.future x) a = []) ∧ (∀ x, cFrees p m (.stream x) a = []) := by
   simp [cFrees]
 
-/-- The registry of the repaired generator is complete in every pass, so the helper the C user finds
-is `cFrees` (`cFreesObserved false`); under the pre-repair registry (`cFreesObserved true`) the
-statement was false — kept as a regression witness: the helper of `variant v { a, b(list<bool>) }`
-generated in a later pass freed nothing of `b([true, false])`. -/
+/-- Regression witness.  Since /repo 5f35383 the dtor registry is complete in every pass and the
+generated helper is `cFrees`.  Under the pre-repair registry (`cFreesObserved true`) the statement
+above was false: for `variant v { a, b(list<bool>) }` holding `b([true, false])` (stored by the spec
+at 16, buffer at 32) the helper of a later pass freed nothing while the value owns the block at 32. -/
 theorem c_free_helpers_regression_witness :
-    ¬ (∀ (p : Nat) (m : Spec.Mem) (t : Ty) (a : Nat), (cFreesObserved true p m t a).Perm (ownedBuffers p m t a)) := by
-  intro h
-  have := (h 4 ((Spec.store 4 (.variant [none, some (.list .bool)])
-      (.variant 1 (some (.list [.bool true, .bool false]))) 16 { mem := [], heap := { next := 32 } }).mem)
-    (.variant [none, some (.list .bool)]) 16).length_eq
-  revert this
-  decide
+    Spec.load 4 (Spec.store 4 (.variant [none, some (.list .bool)])
+        (.variant 1 (some (.list [.bool true, .bool false]))) 16 { mem := [], heap := { next := 32 } }).mem
+      (.variant [none, some (.list .bool)]) 16 = some (.variant 1 (some (.list [.bool true, .bool false]))) ∧
+    cSupported (.variant [none, some (.list .bool)]) = true ∧ elemsPos 4 (.variant [none, some (.list .bool)]) = true ∧
+    cFreesObserved true 4 (Spec.store 4 (.variant [none, some (.list .bool)])
+        (.variant 1 (some (.list [.bool true, .bool false]))) 16 { mem := [], heap := { next := 32 } }).mem
+      (.variant [none, some (.list .bool)]) 16 = [] ∧
+    ((reachBlocks false 4 (Spec.store 4 (.variant [none, some (.list .bool)])
+        (.variant 1 (some (.list [.bool true, .bool false]))) 16 { mem := [], heap := { next := 32 } }).mem
+      (.variant [none, some (.list .bool)]) 16).filter nz).map (·.1) = [32] :=
+  ⟨rfl, by decide, by decide, by decide, by decide⟩
 
-/-- … and even then exact whenever no member has a shared anonymous type. -/
-theorem c_free_helpers_exact_any_registry (late : Bool) (p : Nat) (m : Spec.Mem) (t : Ty) (a : Nat)
-    (h : late = false ∨ noSharedMember t = true) :
-    (cFreesObserved late p m t a).Perm (ownedBuffers p m t a) := by
+/-- … and the pre-repair helpers were already exact whenever no member had a shared anonymous type. -/
+theorem c_free_helpers_exact_any_registry (late : Bool) (p : Nat) (m : Spec.Mem) (t : Ty) (a : Nat) (v : Val)
+    (h : late = false ∨ noSharedMember t = true)
+    (hs : cSupported t = true) (hp : elemsPos p t = true) (hv : Spec.load p m t a = some v) :
+    ((cFreesObserved late p m t a).map (·.1)).Perm (((reachBlocks false p m t a).filter nz).map (·.1)) := by
+  have := c_free_helpers_exact p m t a v hs hp hv
   unfold cFreesObserved
   split
   · rcases h with h | h
     · simp_all
-    · rw [cFreesLate_eq p m t a h]; exact cFrees_perm p m t a
-  · exact cFrees_perm p m t a
+    · rw [cFreesLate_eq p m t a h]; exact this
+  · exact this
 
-/-- Non-vacuity: `record { a: string, b: list<string> }` holding `("hi", ["x"])`: three frees. -/
+/-- Non-vacuity: `record { a: string, b: list<string> }` holding `("hi", ["x"])`: three frees, the
+hypotheses hold. -/
 example :
-    let st := Spec.store 4 (.record [.string, .list .string]) (.record [.str [104, 105], .list [.str [120]]]) 16
-      { mem := [], heap := { next := 32 } }
-    (cFrees 4 st.mem (.record [.string, .list .string]) 16).length = 3 ∧
-    noSharedMember (.record [.string, .string]) = true := by
-  decide
+    (cFrees 4 (Spec.store 4 (.record [.string, .list .string]) (.record [.str [104, 105], .list [.str [120]]]) 16
+      { mem := [], heap := { next := 32 } }).mem (.record [.string, .list .string]) 16).length = 3 ∧
+    Spec.load 4 (Spec.store 4 (.record [.string, .list .string]) (.record [.str [104, 105], .list [.str [120]]]) 16
+      { mem := [], heap := { next := 32 } }).mem (.record [.string, .list .string]) 16
+      = some (.record [.str [104, 105], .list [.str [120]]]) ∧
+    cSupported (.record [.string, .list .string]) = true ∧ elemsPos 4 (.record [.string, .list .string]) = true :=
+  ⟨by decide, rfl, by decide, by decide⟩
 
 /-! ## the destructor export of an exported resource -/
 
-/-- **The destructor is exported under the name the component model binds**, for every interface and
-every resource name (multi-word names included).  (False before /repo 97de409, which exported
-`#[dtor]<snake_case name>`.) -/
-theorem c_dtor_export_name (module name : List Char) :
-    cDtorExportName module name = dtorExportName module name := rfl
+/-- **The destructor is exported under the name the component model binds.**  `cDtorExportName`
+evaluates the `format!` string that tools/gen_cdtor.py extracts from `type_resource` on every run
+(`Generated/CDtor.lean`; `{module}` = `name_world_key(key)`, `{name}` = the WIT name, `{snake}` =
+`to_snake_case`); the right-hand side is C13's transcription of `Resolve::wasm_export_name`
+(`Names.Spec.dtor`, legacy sync mangling).  For every interface key and every resource name — a
+source that goes back to `{snake}` regenerates the table and this proof fails. -/
+theorem c_dtor_export_name (k : Names.Key) (module r : String) (hk : k.worldKey = some module) :
+    Names.Spec.dtor .sync k r = some ⟨cDtorExportName module r, [.i32], []⟩ := by
+  simp [Names.Spec.dtor, hk, cDtorExportName, Witverif.Generated.CDtor.dtorExportFormat, evalSeg,
+    Names.LLAbi.exportPrefix]
 
-example : cDtorExportName "t:t/i".toList "my-res".toList = "t:t/i#[dtor]my-res".toList := by decide
+/-- The `{snake}` evaluation that the source used before /repo 97de409 differs from the spec exactly
+on multi-word names: non-vacuity of the segment semantics. -/
+example : evalSeg "t:t/i" "my-res" .snake = "my_res" ∧ evalSeg "t:t/i" "my-res" .name = "my-res" ∧
+    cDtorExportName "t:t/i" "my-res" = "t:t/i#[dtor]my-res" := by decide
 
 /-! ## post-return and import arguments (the shared generator at the C profile) -/
 
